@@ -923,7 +923,15 @@ def resolution_mismatches(real: Real, source: str) -> tuple[int, list[dict[str, 
 			else:
 				ok = kplain == [node.tokens]   # module-level name, import, or a library builtin
 		if not ok:
-			bad.append({'name': node.tokens, 'at': node.full_path, 'scope': node.scope, 'cpython': f"{kind} in {'.'.join(where) or '<module>'}", 'tranp': key})
+			# diagnosis: is an equally named declaration hidden behind a bare string-prefix relation of two flow scopes?
+			cause = ''
+			if key is None:
+				for k in db.keys():
+					if k.endswith(f'.{node.tokens}'):
+						sc = k[:-len(node.tokens) - 1]
+						if node.scope.startswith(sc) and node.scope != sc and node.scope[len(sc)] not in '.#':
+							cause = 'merge-scope-id-prefix'
+			bad.append({'name': node.tokens, 'at': node.full_path, 'scope': node.scope, 'cpython': f"{kind} in {'.'.join(where) or '<module>'}", 'tranp': key, 'cause': cause})
 	return checked, bad
 
 
@@ -952,7 +960,7 @@ def search_symtable(ctx: Ctx) -> SearchResult:
 			hist[f'{tag}:references'] += checked
 			if bad and not res.findings:
 				b = bad[0]
-				res.findings.append(Finding(key=f"resolve-vs-symtable:{b['cpython'].split(' ')[0]}",
+				res.findings.append(Finding(key=b['cause'] or f"resolve-vs-symtable:{b['cpython'].split(' ')[0]}",
 					what=f"reference `{b['name']}` in scope {b['scope']} is {b['cpython']} for CPython but tranp resolves it to {b['tranp']} ({tag})",
 					replay={'origin': 'symtable', 'variant': tag, 'source': text, 'renaming': mapping, 'mismatches': bad[:5]}))
 			if len(res.samples) < 1 and checked:
